@@ -56,7 +56,7 @@ COMPONENTS_STUB = ["TCP: simkit.net.SimNet", "client verifier: Python ssl (syste
                    "client for IP-literal / non-name SNI values only", "second verifier: cryptography.x509.verification",
                    "x509.random_serial_number seeded from the scenario (certificate bytes never enter the digest)",
                    "certificates are issued with the REAL clock (datetime.now) — 'now' of the oracle is the real time",
-                   "origin PKI: peers.pki_a; custom CA chain generated once per day under /var/tmp/verif_pki_a"]
+                   "origin PKI: peers.pki_a; custom CA chain generated once per day under /verif/data/pki_a/<utc-day>/"]
 ASSUMPTIONS = ["an SNI value counts as a DNS name if, after IDNA to-ASCII, it has 1..253 bytes and every label has 1..63 "
                "bytes of [A-Za-z0-9_-] (no trailing dot: RFC 6066 section 3); other SNI values are not names and no "
                "successful verification is demanded for them",
